@@ -133,7 +133,7 @@ def nuLoop (S : List Int) (as ae pre post : Int) :
       let inds := nuInner as ae pre post x.1 ss (S.drop ss)
       let bk' := inds.foldl (fun b i => b.modify i (· ++ [x])) bk
       match minOf inds with
-      | none => none                                              -- ValueError: min() of empty list
+      | none => nuLoop S as ae pre post rest bk' ss               -- `if inds:` (fix 9ea13c4): search_start stays
       | some m => nuLoop S as ae pre post rest bk' m
 
 /-- upper end of partition `i`: `min(splits[i+1], active_end)` with `splits[len] = ∞` -/
